@@ -170,6 +170,10 @@ pub fn judge(input: &[u8], from: Option<Fmt>, src: Fmt, to: Fmt, mode: &Mode, do
                 return;
             }
         }
+        if matches!(o.verdict, Verdict::Err(_)) && known::read_ahead_failure("C01", from.is_none(), !matches!(mode, Mode::Slice), input) {
+            acc.known("C09-yaml-trial-depends-on-read-ahead", || format!("{} -> {} ({}) input [{}]: {}", src.name(), to.name(), mode.describe(), preview(input, 50), ev::truncate(&observed, 120)));
+            return;
+        }
         let sig = format!("{}->{} {} :: {}", src.name(), to.name(), if matches!(mode, Mode::Slice) { "slice" } else { "reader" }, ev::truncate(&shape, 90));
         acc.violation(Violation { sig, case: case_json(input, from, src, to, mode, doc), observed, expected });
     }
